@@ -152,6 +152,10 @@ let run line =
   | "DY" -> fuelled (Option.map (function None -> "NONE" | Some x -> string_of_int (int_of_n x)) (decon_sym f n (term t)))
   | "DX" -> fuelled (Option.map (function None -> "NONE" | Some (x, q) -> string_of_int (int_of_n x) ^ " " ^ show q) (decon_ex f n (term t)))
   | "DM" -> fuelled (Option.map (function None -> "NONE" | Some (x, q) -> string_of_int (int_of_n x) ^ " " ^ show q) (decon_mu f n (term t)))
+  | "DN" -> fuelled (Option.map (fun (h, args) -> "H " ^ show h ^ " " ^ tuple args) (decon_nary f n (term t)))
+  | "DNP" -> let a = term t in let b = term t in
+      let one p = fuelled (Option.map (fun (h, args) -> "H " ^ show h ^ " " ^ tuple args) (decon_nary f n p)) in
+      one a ^ " | " ^ one b
   | "MP" | "MPS" | "MPX" -> let l = term t in let r = term t in
             fuelled (Option.map (function None -> "RAISE" | Some p -> show p) (basic_mp f n l r))
   | "GEN" | "GENS" -> let c = term t in let x = num t in
